@@ -341,15 +341,25 @@ def check(ctx):
     with structural(ctx, "tags-table/encoder-subset-of-decoder", "tags/encoder-subset-of-decoder (bounded)"):
         meths_all = {m.name: m for m in banana_cls.body if isinstance(m, ast.FunctionDef)}
 
+        # class-level tables (e.g. a dispatch dict type byte -> handler function): consulted through self.<name> / Banana.<name>
+        cls_tables = {st.targets[0].id: st.value for st in banana_cls.body if isinstance(st, ast.Assign) and len(st.targets) == 1 and isinstance(st.targets[0], ast.Name)
+                      and isinstance(st.value, (ast.Dict, ast.Tuple, ast.Set, ast.List))}
+
+        def consulted_tables(fn):
+            return [x.attr for x in ast.walk(fn) if isinstance(x, ast.Attribute) and isinstance(x.ctx, ast.Load) and x.attr in cls_tables
+                    and isinstance(x.value, ast.Name) and x.value.id in ("self", "Banana", "cls")]
+
         def closure(start):
             seen, work = {start}, [start]
             while work:
                 cur = meths_all[work.pop()]
-                for c in ast.walk(cur):
-                    n_ = (call_name(c) or "") if isinstance(c, ast.Call) else ""
-                    if n_.startswith("self.") and n_[5:] in meths_all and n_[5:] not in seen:
-                        seen.add(n_[5:])
-                        work.append(n_[5:])
+                nxt = [(call_name(c) or "")[5:] for c in ast.walk(cur) if isinstance(c, ast.Call) and (call_name(c) or "").startswith("self.")]
+                for tn in consulted_tables(cur):      # the functions a consulted dispatch table holds are reachable from here
+                    nxt += [x.id for x in ast.walk(cls_tables[tn]) if isinstance(x, ast.Name)]
+                for n_ in nxt:
+                    if n_ in meths_all and n_ not in seen:
+                        seen.add(n_)
+                        work.append(n_)
             return [meths_all[n_] for n_ in seen]
         if "_encode" not in meths_all or "dataReceived" not in meths_all:
             raise Abstain("_encode / dataReceived not found")
@@ -365,6 +375,10 @@ def check(ctx):
                             out.add(n_.id)
                         elif n_.id in mod_dicts:          # a module-level table the function consults: its tag keys / members count
                             out |= {x.id for x in ast.walk(mod_dicts[n_.id]) if isinstance(x, ast.Name) and x.id in tags}
+                for tn in consulted_tables(fn):       # keys of a dispatch dict / members of a class-level collection of type bytes
+                    tv = cls_tables[tn]
+                    for part in (tv.keys if isinstance(tv, ast.Dict) else tv.elts):
+                        out |= {x.id for x in ast.walk(part) if part is not None and isinstance(x, ast.Name) and x.id in tags}
             return out
         enc_tags, dec_tags = tag_names(closure("_encode")), tag_names(closure("dataReceived"))
         if len(enc_tags) < 6:
